@@ -361,7 +361,7 @@ Section Tracker.
         [apply Permutation_sym|]; apply sorted_perm. }
     destruct (trk_cleanup_scan now T L (Some o) []) as [o' del] eqn:ES.
     destruct (scan_spec _ _ _ _ _ _ _ SS ES) as (D & O).
-    destruct (pop_all_spec del (with_oldest (mkTracker d (Some T) ord (Some o) br) o') ND KEY) as (calls & E & C).
+    destruct (pop_all_spec del (mkTracker d (Some T) ord (Some o) br) ND KEY) as (calls & E & C).
     simpl in E, C. rewrite E. exists del, o', calls.
     assert (EXACT : forall k tr, In (k, tr) d -> (In k del <-> T <= now - tr_lu tr)).
     { intros k tr H. rewrite D. split.
@@ -445,6 +445,19 @@ Section Tracker.
     trk_set_oldest_timestamp
       (with_tracks st (without (Z.eqb m) (t_tracks st) ++ [(m, upd_result st m new)])) (tr_lu new).
 
+  (* insert_or_update lowers the cache before insert_track and once more after it: the second time changes nothing *)
+  Lemma set_oldest_absorb (st : tracker) d ts :
+    trk_set_oldest_timestamp (with_tracks (trk_set_oldest_timestamp st ts) d) ts =
+    trk_set_oldest_timestamp (with_tracks st d) ts.
+  Proof.
+    unfold trk_set_oldest_timestamp, with_tracks, with_oldest. destruct (t_oldest st) as [o|]; simpl.
+    - now rewrite <- Z.min_assoc, Z.min_id.
+    - now rewrite Z.min_id.
+  Qed.
+
+  Lemma set_oldest_tracks (st : tracker) ts : t_tracks (trk_set_oldest_timestamp st ts) = t_tracks st.
+  Proof. unfold trk_set_oldest_timestamp. destruct (t_oldest st); reflexivity. Qed.
+
   Lemma insert_or_update_spec (st : tracker) m new : inv st ->
     (older_than_track st m (tr_lu new) /\ trk_insert_or_update st m new = (st, [], Some (Py ValueError))) \/
     (~ older_than_track st m (tr_lu new) /\
@@ -458,6 +471,7 @@ Section Tracker.
         rewrite del_without by apply I.
         rewrite set_absent by (rewrite get_without, Z.eqb_refl; reflexivity). reflexivity.
     - right. split; [intros (o & E & _); discriminate|]. unfold trk_insert_track.
+      rewrite set_oldest_tracks, set_oldest_absorb.
       rewrite set_absent by assumption. rewrite without_id; [reflexivity|].
       intros k Ik. destruct (Z.eqb_spec m k); [subst; apply get_none_iff in G; tauto | reflexivity].
   Qed.
@@ -544,21 +558,43 @@ Section Tracker.
   Lemma inv_with_broker (st : tracker) b : inv st -> inv (with_broker st b).
   Proof. intros [ND KEY OLD SORT LEN]. constructor; simpl; auto. Qed.
 
-  Theorem step_inv (st : tracker) op : inv st -> inv (r_state (trk_step nattrs st op)).
+  (* assignments to ttl_in_seconds / stream_is_ordered = False: the table is untouched, and a table that satisfies the
+     invariants of ordered mode satisfies those of unordered mode *)
+  Lemma inv_with_ttl (st : tracker) t : inv st -> inv (with_ttl st t).
+  Proof. intros [ND KEY OLD SORT LEN]. constructor; simpl; auto. Qed.
+
+  Lemma inv_unordered (st : tracker) : inv st -> inv (with_ordered st false).
+  Proof. intros [ND KEY OLD SORT LEN]. constructor; simpl; auto. discriminate. Qed.
+
+  (* The ordered-mode caveat of the public route below update(): insert_or_update() does not check the order of the
+     timestamps, so in ordered mode the caller must not hand it a timestamp older than a track (otherwise the unchanged
+     code itself leaves the table unsorted).  Every other operation: no condition. *)
+  Definition op_ok (st : tracker) (op : trk_op V) : Prop :=
+    match op with
+    | OpInsertOrUpdate now msg ts => ~ out_of_order st (tr_lu (trk_msg_to_track nattrs msg ts now))
+    | _ => True
+    end.
+
+  Theorem step_inv (st : tracker) op : inv st -> op_ok st op -> inv (r_state (trk_step nattrs st op)).
   Proof.
-    intros I. destruct op as [now msg ts|now|m|ev cb|ev cb]; simpl.
+    intros I OKop. destruct op as [now msg ts|now|m|ev cb|ev cb|now msg ts|newttl|]; simpl.
     - destruct (update_spec st now msg ts I) as [[_ E]|(_ & I2 & E)]; rewrite E; simpl; [assumption|].
       destruct (cleanup_spec _ now I2) as (del & o' & calls & Ec & Ic & _). rewrite Ec. exact Ic.
     - destruct (cleanup_spec _ now I) as (del & o' & calls & Ec & Ic & _). rewrite Ec. exact Ic.
     - rewrite pop_track_spec by apply I. destruct (idict_get (t_tracks st) m); simpl; [now apply inv_without | assumption].
     - now apply inv_with_broker.
     - now apply inv_with_broker.
+    - destruct (msg_to_track_facts msg ts now) as (Fm & _ & Fl).
+      destruct (insert_or_update_spec st (m_mmsi msg) (trk_msg_to_track nattrs msg ts now) I) as [[_ E]|[_ E]]; rewrite E; simpl;
+        [assumption | now apply inv_after_insert].
+    - now apply inv_with_ttl.
+    - now apply inv_unordered.
   Qed.
 
   (* the states reachable from a fresh tracker *)
   Inductive reachable : tracker -> Prop :=
   | reach_init ttl ordered : reachable (trk_init ttl ordered)
-  | reach_step st op : reachable st -> reachable (r_state (trk_step nattrs st op)).
+  | reach_step st op : reachable st -> op_ok st op -> reachable (r_state (trk_step nattrs st op)).
 
   Lemma reachable_inv st : reachable st -> inv st.
   Proof. induction 1; [apply inv_init | now apply step_inv]. Qed.
@@ -643,7 +679,7 @@ Section Tracker.
     intros R ET NP res. apply reachable_inv in R. subst res.
     assert (CL : forall st2 now, inv st2 -> t_ttl st2 = None -> trk_cleanup st2 now = (st2, [])).
     { intros st2 now _ E2. unfold trk_cleanup. now rewrite E2. }
-    destruct op as [now msg ts|now|m|ev cb|ev cb]; simpl.
+    destruct op as [now msg ts|now|m|ev cb|ev cb|now msg ts|newttl|]; simpl.
     - destruct (update_spec st now msg ts R) as [[_ E]|(_ & I2 & E)]; rewrite E; simpl.
       + split; [reflexivity | apply incl_refl].
       + destruct (after_insert_cfg st (m_mmsi msg) (trk_msg_to_track nattrs msg ts now)) as (Ettl & _ & _ & Etr).
@@ -653,6 +689,14 @@ Section Tracker.
         apply filter_In. split; [assumption|]. apply negb_true_iff. now apply Z.eqb_neq.
     - rewrite (CL _ now R ET). simpl. split; [reflexivity | apply incl_refl].
     - exfalso. now apply (NP m).
+    - split; [reflexivity | apply incl_refl].
+    - split; [reflexivity | apply incl_refl].
+    - destruct (insert_or_update_spec st (m_mmsi msg) (trk_msg_to_track nattrs msg ts now) R) as [[_ E]|[_ E]]; rewrite E; simpl.
+      + split; [reflexivity | apply incl_refl].
+      + destruct (after_insert_cfg st (m_mmsi msg) (trk_msg_to_track nattrs msg ts now)) as (_ & _ & _ & Etr).
+        unfold deleted_mmsis. simpl. rewrite upd_event_not_deleted. split; [reflexivity|]. rewrite Etr, keys_app, keys_without. simpl.
+        intros k Ik. apply in_or_app. destruct (Z.eqb_spec (m_mmsi msg) k) as [->|N]; [right; now left | left].
+        apply filter_In. split; [assumption|]. apply negb_true_iff. now apply Z.eqb_neq.
     - split; [reflexivity | apply incl_refl].
     - split; [reflexivity | apply incl_refl].
   Qed.
@@ -766,7 +810,7 @@ Section Tracker.
   (* the target of an accepted update *)
   Definition step_target (op : trk_op V) (res : trk_result V) : option Z :=
     match op with
-    | OpUpdate _ msg _ => match r_exn res with None => Some (m_mmsi msg) | Some _ => None end
+    | OpUpdate _ msg _ | OpInsertOrUpdate _ msg _ => match r_exn res with None => Some (m_mmsi msg) | Some _ => None end
     | _ => None
     end.
 
@@ -794,7 +838,7 @@ Section Tracker.
   Proof.
     intros I res. subst res. rewrite events_of_calls.
     assert (SAME : forall b, [] = sp_expected_events None m b b) by (intros []; reflexivity).
-    destruct op as [now msg ts|now|m1|ev cb|ev cb]; simpl.
+    destruct op as [now msg ts|now|m1|ev cb|ev cb|now msg ts|newttl|]; simpl.
     - destruct (update_spec st now msg ts I) as [[_ E]|(_ & I2 & E)]; rewrite E; simpl; [split; [apply SAME | auto]|].
       set (m0 := m_mmsi msg) in *. set (new := trk_msg_to_track nattrs msg ts now) in *.
       destruct (upd_result_facts st m0 new I) as (Rm & _); [apply msg_to_track_facts | apply msg_to_track_facts|].
@@ -817,6 +861,19 @@ Section Tracker.
       destruct (Z.eqb_spec m m1) as [->|N]; simpl.
       + unfold idict_mem. rewrite G. split; [reflexivity | discriminate].
       + split; [apply SAME | auto].
+    - split; [apply SAME | auto].
+    - split; [apply SAME | auto].
+    - set (m0 := m_mmsi msg). set (new := trk_msg_to_track nattrs msg ts now).
+      destruct (insert_or_update_spec st m0 new I) as [[_ E]|[_ E]]; rewrite E; simpl; [split; [apply SAME | auto]|].
+      destruct (upd_result_facts st m0 new I) as (Rm & _); [apply msg_to_track_facts | apply msg_to_track_facts|].
+      destruct (after_insert_cfg st m0 new) as (_ & _ & _ & Etr). rewrite Etr, Rm.
+      assert (M2 : idict_mem (without (Z.eqb m0) (t_tracks st) ++ [(m0, upd_result st m0 new)]) m
+                   = (m =? m0) || idict_mem (t_tracks st) m).
+      { unfold idict_mem. rewrite get_app_single, get_without, (Z.eqb_sym m0 m).
+        destruct (m =? m0); simpl; [reflexivity|]. destruct (idict_get (t_tracks st) m); reflexivity. }
+      rewrite M2. destruct (Z.eqb_spec m m0) as [->|N]; simpl.
+      + split; [|congruence]. unfold upd_event. destruct (idict_mem (t_tracks st) m0); reflexivity.
+      + split; [|auto]. destruct (idict_mem (t_tracks st) m); reflexivity.
     - split; [apply SAME | auto].
     - split; [apply SAME | auto].
   Qed.
@@ -844,30 +901,47 @@ Section Tracker.
   Definition run_events (results : list (trk_result V)) : list (sp_event * Z) :=
     flat_map (fun r => abs_calls (r_calls r)) results.
 
-  Lemma run_alive m : forall h (st : tracker) trace0, inv st ->
+  (* a history that respects the ordered-mode caveat of insert_or_update() at every step (`op_ok`); histories without
+     that operation do trivially *)
+  Fixpoint trk_run_ok (st : tracker) (h : list (trk_op V)) : Prop :=
+    match h with
+    | [] => True
+    | op :: r => op_ok st op /\ trk_run_ok (r_state (trk_step nattrs st op)) r
+    end.
+
+  Lemma run_ok_without_insert : forall (h : list (trk_op V)) (st : tracker),
+    (forall now msg ts, ~ In (OpInsertOrUpdate now msg ts) h) -> trk_run_ok st h.
+  Proof.
+    induction h as [|op r IH]; intros st N; simpl; [exact Logic.I|]. split.
+    - destruct op; try exact Logic.I. exfalso. apply (N now decoded ts_epoch_ms). now left.
+    - apply IH. intros now msg ts I. apply (N now msg ts). now right.
+  Qed.
+
+  Lemma run_alive m : forall h (st : tracker) trace0, inv st -> trk_run_ok st h ->
     sp_alive m trace0 = Some (idict_mem (t_tracks st) m) ->
     sp_alive m (trace0 ++ run_events (snd (trk_run nattrs st h))) =
       Some (idict_mem (t_tracks (fst (trk_run nattrs st h))) m).
   Proof.
-    induction h as [|op r IH]; intros st trace0 I A; simpl.
+    induction h as [|op r IH]; intros st trace0 I OK A; simpl.
     - now rewrite app_nil_r.
-    - destruct (trk_run nattrs (r_state (trk_step nattrs st op)) r) as [st' rs] eqn:ER. simpl.
+    - destruct OK as [OK1 OK2].
+      destruct (trk_run nattrs (r_state (trk_step nattrs st op)) r) as [st' rs] eqn:ER. simpl.
       rewrite app_assoc. specialize (IH (r_state (trk_step nattrs st op)) (trace0 ++ abs_calls (r_calls (trk_step nattrs st op)))).
-      rewrite ER in IH. simpl in IH. apply IH; [now apply step_inv|].
+      rewrite ER in IH. simpl in IH. apply IH; [now apply step_inv | assumption|].
       unfold sp_alive in *. rewrite events_of_app, auto_run_app, A.
       destruct (step_events st op m I) as (E & K). rewrite E. now apply expected_run.
   Qed.
 
   (* C15: the events of every MMSI stay in (CREATED UPDATED* DELETED)* and "alive" = "has a track" *)
-  Theorem events_lifecycle ttl ordered h m :
+  Theorem events_lifecycle ttl ordered h m : trk_run_ok (trk_init ttl ordered) h ->
     sp_alive m (run_events (snd (trk_run nattrs (trk_init ttl ordered) h))) =
       Some (idict_mem (t_tracks (fst (trk_run nattrs (trk_init ttl ordered) h))) m).
-  Proof. apply (run_alive m h (trk_init ttl ordered) []); [apply inv_init | reflexivity]. Qed.
+  Proof. intros OK. apply (run_alive m h (trk_init ttl ordered) []); [apply inv_init | assumption | reflexivity]. Qed.
 
-  Lemma run_reachable : forall h (st : tracker), reachable st -> reachable (fst (trk_run nattrs st h)).
+  Lemma run_reachable : forall h (st : tracker), reachable st -> trk_run_ok st h -> reachable (fst (trk_run nattrs st h)).
   Proof.
-    induction h as [|op r IH]; intros st R; simpl; [assumption|].
-    specialize (IH _ (reach_step st op R)). destruct (trk_run nattrs (r_state (trk_step nattrs st op)) r). exact IH.
+    induction h as [|op r IH]; intros st R OK; simpl; [assumption|]. destruct OK as [OK1 OK2].
+    specialize (IH _ (reach_step st op R OK1) OK2). destruct (trk_run nattrs (r_state (trk_step nattrs st op)) r). exact IH.
   Qed.
 
   (* ================================================================================= 5. C12 *)
@@ -879,6 +953,9 @@ Section Tracker.
     | OpUpdate now msg ts => SpUpdate now (m_mmsi msg) (map present (m_attrs msg)) ts
     | OpCleanup now => SpCleanup now
     | OpPop m => SpPop m
+    | OpInsertOrUpdate now msg ts => SpInsert now (m_mmsi msg) (map present (m_attrs msg)) ts
+    | OpSetTtl t => SpSetTtl t
+    | OpUnordered => SpUnordered
     | _ => SpOther
     end.
 
@@ -1022,7 +1099,7 @@ Section Tracker.
     let res := trk_step nattrs st op in
     refines (r_state res) (sp_step (t_ordered st) log (abs_op op) (deleted_mmsis (r_calls res))).
   Proof.
-    intros I R res. subst res. destruct op as [now msg ts|now|m1|ev cb|ev cb]; simpl.
+    intros I R res. subst res. destruct op as [now msg ts|now|m1|ev cb|ev cb|now msg ts|newttl|]; simpl.
     - fold (msg_ts ts now).
       assert (Elu : tr_lu (trk_msg_to_track nattrs msg ts now) = msg_ts ts now) by apply msg_to_track_facts.
       pose proof (rejected_iff st log (m_mmsi msg) (msg_ts ts now) I R) as RJ.
@@ -1038,39 +1115,53 @@ Section Tracker.
       + destruct (Z.eqb_spec m m1) as [->|N]; [now rewrite G | exact R].
     - exact R.
     - exact R.
+    - fold (msg_ts ts now).
+      assert (Elu : tr_lu (trk_msg_to_track nattrs msg ts now) = msg_ts ts now) by apply msg_to_track_facts.
+      pose proof (older_iff st log (m_mmsi msg) (msg_ts ts now) R) as OI.
+      destruct (insert_or_update_spec st (m_mmsi msg) (trk_msg_to_track nattrs msg ts now) I) as [[Rej E]|[NRej E]];
+        rewrite E; simpl; rewrite Elu in *.
+      + apply OI in Rej. now rewrite Rej.
+      + destruct (sp_older (msg_ts ts now) (m_mmsi msg) log) eqn:ER; [exfalso; apply NRej; now apply OI|].
+        now apply refines_after_insert.
+    - exact R.
+    - exact R.
   Qed.
 
+  (* only the two configuration operations change the configuration *)
   Lemma step_cfg (st : tracker) op : inv st ->
-    t_ordered (r_state (trk_step nattrs st op)) = t_ordered st /\ t_ttl (r_state (trk_step nattrs st op)) = t_ttl st.
+    t_ordered (r_state (trk_step nattrs st op)) = sp_mode (t_ordered st) (abs_op op) /\
+    t_ttl (r_state (trk_step nattrs st op)) = sp_ttl_after (t_ttl st) (abs_op op).
   Proof.
-    intros I. destruct op as [now msg ts|now|m1|ev cb|ev cb]; simpl; auto.
+    intros I. destruct op as [now msg ts|now|m1|ev cb|ev cb|now msg ts|newttl|]; simpl; auto.
     - destruct (update_spec st now msg ts I) as [[_ E]|(_ & I2 & E)]; rewrite E; simpl; [auto|].
       destruct (cleanup_spec _ now I2) as (del & o' & calls & Ec & _). rewrite Ec. simpl.
       destruct (after_insert_cfg st (m_mmsi msg) (trk_msg_to_track nattrs msg ts now)) as (-> & -> & _). auto.
     - destruct (cleanup_spec _ now I) as (del & o' & calls & Ec & _). rewrite Ec. simpl. auto.
     - rewrite pop_track_spec by apply I. destruct (idict_get (t_tracks st) m1); simpl; auto.
+    - destruct (insert_or_update_spec st (m_mmsi msg) (trk_msg_to_track nattrs msg ts now) I) as [[_ E]|[_ E]]; rewrite E; simpl; [auto|].
+      destruct (after_insert_cfg st (m_mmsi msg) (trk_msg_to_track nattrs msg ts now)) as (-> & -> & _). auto.
   Qed.
 
   (* the history as the specification sees it: every operation with the MMSIs its DELETED events name *)
   Definition spec_history (h : list (trk_op V)) (rs : list (trk_result V)) : list (sp_op V * list Z) :=
     combine (map abs_op h) (map (fun r => deleted_mmsis (r_calls r)) rs).
 
-  Lemma run_refines : forall h (st : tracker) log, inv st -> refines st log ->
+  Lemma run_refines : forall h (st : tracker) log, inv st -> trk_run_ok st h -> refines st log ->
     refines (fst (trk_run nattrs st h))
             (sp_run (t_ordered st) log (spec_history h (snd (trk_run nattrs st h)))).
   Proof.
-    induction h as [|op r IH]; intros st log I R; simpl; [exact R|].
+    induction h as [|op r IH]; intros st log I OK R; simpl; [exact R|]. destruct OK as [OK1 OK2].
     destruct (trk_run nattrs (r_state (trk_step nattrs st op)) r) as [st' rs] eqn:ER. simpl.
     specialize (IH (r_state (trk_step nattrs st op)) (sp_step (t_ordered st) log (abs_op op) (deleted_mmsis (r_calls (trk_step nattrs st op))))).
     rewrite ER in IH. simpl in IH. rewrite (proj1 (step_cfg st op I)) in IH.
-    apply IH; [now apply step_inv | now apply step_refines].
+    apply IH; [now apply step_inv | assumption | now apply step_refines].
   Qed.
 
   (* C12: for every history the tracker, as a finite map, is the map the log of accepted updates defines *)
-  Theorem refinement ttl ordered h :
+  Theorem refinement ttl ordered h : trk_run_ok (trk_init ttl ordered) h ->
     refines (fst (trk_run nattrs (trk_init ttl ordered) h))
             (sp_run ordered [] (spec_history h (snd (trk_run nattrs (trk_init ttl ordered) h)))).
-  Proof. apply (run_refines h (trk_init ttl ordered) []); [apply inv_init | intros m; reflexivity]. Qed.
+  Proof. intros OK. apply (run_refines h (trk_init ttl ordered) []); [apply inv_init | assumption | intros m; reflexivity]. Qed.
 
   (* ... and a rejected update (exactly the updates the specification calls rejected) changes nothing at all *)
   Theorem rejected_unchanged (st : tracker) now (msg : trk_msg V) ts : reachable st ->
@@ -1222,7 +1313,7 @@ Section Exact.
   Theorem step_refines_exact (st : tracker) log op : inv nattrs st -> refines nattrs st log ->
     refines nattrs (r_state (trk_step nattrs st op)) (sp_step_exact (t_ttl st) (t_ordered st) log (abs_op op)).
   Proof.
-    intros I R. destruct op as [now msg ts|now|m1|ev cb|ev cb].
+    intros I R. destruct op as [now msg ts|now|m1|ev cb|ev cb|now msg ts|newttl|].
     - simpl. fold (msg_ts ts now).
       assert (Elu : tr_lu (trk_msg_to_track nattrs msg ts now) = msg_ts ts now) by apply msg_to_track_facts.
       pose proof (rejected_iff nattrs st log (m_mmsi msg) (msg_ts ts now) I R) as RJ.
@@ -1236,22 +1327,25 @@ Section Exact.
     - apply (step_refines nattrs st log (OpPop m1) I R).
     - exact R.
     - exact R.
+    - apply (step_refines nattrs st log (OpInsertOrUpdate now msg ts) I R).
+    - exact R.
+    - exact R.
   Qed.
 
-  Lemma run_refines_exact : forall h (st : tracker) log, inv nattrs st -> refines nattrs st log ->
+  Lemma run_refines_exact : forall h (st : tracker) log, inv nattrs st -> trk_run_ok nattrs st h -> refines nattrs st log ->
     refines nattrs (fst (trk_run nattrs st h))
-            (fold_left (sp_step_exact (t_ttl st) (t_ordered st)) (map abs_op h) log).
+            (sp_run_exact_from (t_ttl st) (t_ordered st) log (map abs_op h)).
   Proof.
-    induction h as [|op r IH]; intros st log I R; simpl; [exact R|].
+    induction h as [|op r IH]; intros st log I OK R; simpl; [exact R|]. destruct OK as [OK1 OK2].
     destruct (trk_run nattrs (r_state (trk_step nattrs st op)) r) as [st' rs] eqn:ER. simpl.
     specialize (IH (r_state (trk_step nattrs st op)) (sp_step_exact (t_ttl st) (t_ordered st) log (abs_op op))).
     rewrite ER in IH. simpl in IH. destruct (step_cfg nattrs st op I) as (Eo & Et). rewrite Eo, Et in IH.
-    apply IH; [now apply step_inv | now apply step_refines_exact].
+    apply IH; [now apply step_inv | assumption | now apply step_refines_exact].
   Qed.
 
-  Theorem refinement_exact ttl ordered (h : list (trk_op V)) :
+  Theorem refinement_exact ttl ordered (h : list (trk_op V)) : trk_run_ok nattrs (trk_init ttl ordered) h ->
     refines nattrs (fst (trk_run nattrs (trk_init ttl ordered) h)) (sp_run_exact ttl ordered (map abs_op h)).
-  Proof. apply (run_refines_exact h (trk_init ttl ordered) []); [apply inv_init | intros m; reflexivity]. Qed.
+  Proof. intros OK. apply (run_refines_exact h (trk_init ttl ordered) []); [apply inv_init | assumption | intros m; reflexivity]. Qed.
 End Exact.
 
 (* ================================================================================= statements over reachable states *)
@@ -1260,7 +1354,8 @@ Section Reachable.
   Variable nattrs : nat.
 
   Lemma step_cfg_reachable (st : trk_tracker V) op : reachable nattrs st ->
-    t_ordered (r_state (trk_step nattrs st op)) = t_ordered st /\ t_ttl (r_state (trk_step nattrs st op)) = t_ttl st.
+    t_ordered (r_state (trk_step nattrs st op)) = sp_mode (t_ordered st) (abs_op op) /\
+    t_ttl (r_state (trk_step nattrs st op)) = sp_ttl_after (t_ttl st) (abs_op op).
   Proof. intros R. apply step_cfg. now apply reachable_inv. Qed.
 
   Lemma step_events_reachable (st : trk_tracker V) op m : reachable nattrs st ->
